@@ -6,7 +6,13 @@ first statement to their last, with that block in place (by py2coq_tofu.SessFn's
 parsing, construction of the protocol object, the awaited connection, the deferred send, the awaited response, the
 exception handlers and the `finally`.
 
-    gen_init trust_on_first_use verify_ssl ssl_context decode_bodies : SessionGlue.client_cfg
+    gen_MAX_REDIRECTS (protocol/constants.py), gen_init_default_<parameter> (the defaults of the constructor)
+    gen_init timeout max_redirects ssl_context verify_ssl trust_on_first_use decode_bodies : SessionGlue.client_cfg
+                   (EVERY attribute __init__ assigns is a field of the record; an attribute outside it is refused)
+    gen_get {A} validate_url parse_url get_with_redirects get_single self__ url follow_redirects : res A
+                   (GeminiClient.get: the validate_url statements - an exception is the res value Err, the first one is the result -
+                   and the dispatch; the two coroutine methods are callees; arguments are matched to the callee's signature by
+                   position / keyword, the redirect_chain default is read from _get_with_redirects)
     gen_get_single {P} parse_url verify get_host_info trust new_protocol connection_made send_request wait_response
                    self__ s__ url conn_in cert_in            : Tofu.store * SessionGlue.outcome * list SessionGlue.gevent
     gen_upload     {P} str_replace parse_url verify get_host_info trust new_protocol connection_made send_request wait_response
@@ -56,10 +62,12 @@ TRUSTED TABLES (every entry is an assumption about a library or about how an eve
   TRUTHY    a TOFUDatabase object is never falsy (checked: the class has no base class, no __bool__, no __len__).
   EXC_BASES class -> direct bases, emitted as gen_exc_bases; every pair of classes of the table that the running interpreter
               can resolve is checked against issubclass; the base of CertificateChangedError is read from security/tofu.py.
-  INIT      GeminiClient.__init__ is a sequence of `self.f = <parameter>` and if-trees of such assignments:
+  INIT      GeminiClient.__init__ is a sequence of `self.f = <value>` and if-trees of such assignments; a value is a parameter, a
+              constant session.py imports from ..protocol.constants (non-negative int literal there, never re-bound), a literal,
+              not / and / or (Python's `a or b` on ints: b when a is 0), an attribute already set, or:
               TOFUDatabase(path) -> Some tt (the object; its content is s__), create_client_context(verify_mode=ssl.CERT_REQUIRED /
               ssl.CERT_NONE, check_hostname=True / False, certfile=.., keyfile=..) -> CtxCreated, the caller's context -> CtxGiven;
-              attributes the two calls do not read are not kept; INIT_SKIP (the two client_cert / client_key checks) is skipped;
+              timeout is a rational (Q), max_redirects a nat (negative ints have no counterpart); INIT_SKIP (the two client_cert / client_key checks) is skipped;
               no other method of the class assigns an attribute of self (checked).
   TYPES     url, mime_type: str; content: SessionGlue.pycontent; token: option str; bytes and str are both `str` in Coq
               (kept apart by the translator)."""
@@ -87,8 +95,9 @@ INIT_SKIP = [
     "if client_cert and (not client_key):\n    raise ValueError('client_key is required when client_cert is provided')",
     "if client_key and (not client_cert):\n    raise ValueError('client_cert is required when client_key is provided')",
 ]
-INIT_PARAMS = {"trust_on_first_use": "bool", "verify_ssl": "bool", "decode_bodies": "bool", "ssl_context": "option N"}
-INIT_FIELDS = ["tofu_db", "ssl_context", "decode_bodies"]          # SessionGlue.client_cfg, in this order
+INIT_PARAMS = {"timeout": "Q", "max_redirects": "nat", "ssl_context": "option N", "verify_ssl": "bool", "trust_on_first_use": "bool", "decode_bodies": "bool"}
+INIT_FIELDS = {"timeout": "Q", "max_redirects": "nat", "verify_ssl": "bool", "trust_on_first_use": "bool", "tofu_db": "db?", "ssl_context": "ctx",
+               "decode_bodies": "bool"}          # SessionGlue.client_cfg, in this order: EVERY attribute __init__ assigns
 TIMEOUT_KW = "self.timeout"
 R = "SessionGlue."
 
@@ -496,7 +505,28 @@ class CallFn(SessFn):
 PARAM_COQ = {"str": "str", "pycontent": R + "pycontent", "opt str": "option str"}
 
 # ------------------------------------------------------------------ GeminiClient.__init__
-def translate_init(tree):
+def module_constants(session, constants):
+    """names session.py imports from ..protocol.constants whose value there is an int literal -> (Coq name, value)"""
+    imported = set()
+    for n in session.body:
+        if isinstance(n, ast.ImportFrom) and n.level == 2 and n.module == "protocol.constants": imported |= {a.name for a in n.names if a.asname is None}
+    out = {}
+    for n in constants.body:
+        if isinstance(n, ast.Assign) and len(n.targets) == 1 and isinstance(n.targets[0], ast.Name) and n.targets[0].id in imported \
+           and isinstance(n.value, ast.Constant) and isinstance(n.value.value, int) and not isinstance(n.value.value, bool) and n.value.value >= 0:
+            out[n.targets[0].id] = ("gen_" + n.targets[0].id, n.value.value)
+    for n in ast.walk(session):       # a constant must not be re-bound anywhere in session.py
+        if isinstance(n, ast.Name) and isinstance(n.ctx, (ast.Store, ast.Del)) and n.id in out: bad(n, "re-binding of the constant %s" % n.id)
+        if isinstance(n, ast.arg) and n.arg in out: bad(n, "a parameter shadows the constant %s" % n.arg)
+    return out
+
+def q_literal(v):
+    from fractions import Fraction
+    f = Fraction(repr(v)) if isinstance(v, float) else Fraction(v)
+    if f < 0: raise Untranslatable("negative timeout default")
+    return "(QArith_base.Qmake %d %d)" % (f.numerator, f.denominator)
+
+def translate_init(tree, consts):
     fn = find_function(tree, "GeminiClient", "__init__")
     cls = [n for n in ast.walk(tree) if isinstance(n, ast.ClassDef) and n.name == "GeminiClient"][0]
     for m in cls.body:
@@ -508,28 +538,39 @@ def translate_init(tree):
     a = fn.args
     params = [x.arg for x in a.args][1:]
     if a.vararg or a.kwarg or a.kwonlyargs or a.posonlyargs or not set(INIT_PARAMS) <= set(params): bad(fn, "__init__ signature")
-    OPAQUE = object()
     def value(e, fields, narrowed):
-        if isinstance(e, ast.Name) and e.id in params:
-            if e.id == "ssl_context": return "(%sCtxGiven ssl_context)" % R if narrowed else bad(e, "ssl_context may be None here")
-            return e.id if e.id in INIT_PARAMS else OPAQUE
-        if isinstance(e, ast.Constant) and e.value is None: return "None"
+        """-> (term, type)"""
+        if isinstance(e, ast.Name) and e.id in INIT_PARAMS:
+            if e.id == "ssl_context": return ("(%sCtxGiven ssl_context)" % R, "ctx") if narrowed else bad(e, "ssl_context may be None here")
+            return (e.id, INIT_PARAMS[e.id])
+        if isinstance(e, ast.Name) and e.id in consts and e.id not in params: return (consts[e.id][0], "nat")
+        if isinstance(e, ast.Constant) and e.value is None: return ("None", "none")
+        if isinstance(e, ast.Constant) and isinstance(e.value, bool): return ("true" if e.value else "false", "bool")
+        if isinstance(e, ast.Constant) and isinstance(e.value, int) and e.value >= 0: return ("%d%%nat" % e.value, "nat")
+        if isinstance(e, ast.Attribute) and isinstance(e.value, ast.Name) and e.value.id == "self" and e.attr in fields: return fields[e.attr]
+        if isinstance(e, ast.UnaryOp) and isinstance(e.op, ast.Not):
+            x, t = value(e.operand, fields, narrowed)
+            if t == "bool": return ("(negb %s)" % x, "bool")
+        if isinstance(e, ast.BoolOp) and len(e.values) == 2:      # Python's `a or b` / `a and b` return one of the operands
+            (x, tx), (y, ty) = value(e.values[0], fields, narrowed), value(e.values[1], fields, narrowed)
+            isor = isinstance(e.op, ast.Or)
+            if tx == ty == "bool": return ("(%s %s %s)" % (x, "||" if isor else "&&", y), "bool")
+            if tx == ty == "nat": return ("(if Nat.eqb %s 0 then %s else %s)" % ((x, y, x) if isor else (x, x, y)), "nat")
         if isinstance(e, ast.Call) and not any(isinstance(n, (ast.Await, ast.NamedExpr, ast.Lambda)) for n in ast.walk(e)):
             f = ast.unparse(e.func)
-            if f == "TOFUDatabase" and len(e.args) == 1 and not e.keywords and ast.unparse(e.args[0]) == "tofu_db_path": return "(Some tt)"
+            if f == "TOFUDatabase" and len(e.args) == 1 and not e.keywords and ast.unparse(e.args[0]) == "tofu_db_path": return ("(Some tt)", "db?")
             if f == "create_client_context" and not e.args:
                 kw = {k_.arg: ast.unparse(k_.value) for k_ in e.keywords}
                 if sorted(kw) == ["certfile", "check_hostname", "keyfile", "verify_mode"] and kw["verify_mode"] in ("ssl.CERT_REQUIRED", "ssl.CERT_NONE") \
                    and kw["check_hostname"] in ("True", "False") and kw["certfile"] == "str(client_cert) if client_cert else None" \
                    and kw["keyfile"] == "str(client_key) if client_key else None":
-                    return "(%sCtxCreated %s %s)" % (R, "true" if kw["verify_mode"] == "ssl.CERT_REQUIRED" else "false", kw["check_hostname"].lower())
+                    return ("(%sCtxCreated %s %s)" % (R, "true" if kw["verify_mode"] == "ssl.CERT_REQUIRED" else "false", kw["check_hostname"].lower()), "ctx")
         bad(e, "__init__: value")
     def test(t, fields):
         """-> (kind, term)"""
-        if isinstance(t, ast.Name) and INIT_PARAMS.get(t.id) == "bool": return ("bool", t.id)
-        if isinstance(t, ast.Attribute) and isinstance(t.value, ast.Name) and t.value.id == "self" and isinstance(fields.get(t.attr), str) \
-           and fields[t.attr] in ("trust_on_first_use", "verify_ssl", "decode_bodies"): return ("bool", fields[t.attr])
         if ast.unparse(t) == "ssl_context is None": return ("ctx_none", None)
+        x, ty = value(t, fields, False)
+        if ty == "bool": return ("bool", x)
         bad(t, "__init__: test")
     def run(stmts, fields, narrowed):
         fields = dict(fields)
@@ -539,23 +580,117 @@ def translate_init(tree):
             if isinstance(s, ast.AnnAssign) and s.value is not None: s = ast.copy_location(ast.Assign(targets=[s.target], value=s.value), s)
             if isinstance(s, ast.Assign) and len(s.targets) == 1 and isinstance(s.targets[0], ast.Attribute) and isinstance(s.targets[0].value, ast.Name) \
                and s.targets[0].value.id == "self":
-                fields[s.targets[0].attr] = value(s.value, fields, narrowed); continue
+                f = s.targets[0].attr
+                if f not in INIT_FIELDS: bad(s, "__init__: attribute %s is not a field of SessionGlue.client_cfg" % f)
+                x, ty = value(s.value, fields, narrowed)
+                want = INIT_FIELDS[f]
+                if ty == "none" and want in ("db?",): ty = want
+                if ty != want: bad(s, "__init__: attribute %s: %s expected, %s found" % (f, want, ty))
+                fields[f] = (x, want); continue
             if isinstance(s, ast.If):
                 kind, c = test(s.test, fields)
-                a = run(s.body, fields, narrowed)
-                b = run(s.orelse, fields, narrowed or kind == "ctx_none")
-                for f in set(a) | set(b):
-                    if a.get(f) is b.get(f) or a.get(f) == b.get(f): fields[f] = a.get(f); continue
-                    if f not in a or f not in b or a[f] is OPAQUE or b[f] is OPAQUE: bad(s, "__init__: attribute %s is not set on every path" % f)
-                    fields[f] = "(if %s then %s else %s)" % (c, a[f], b[f]) if kind == "bool" else "(match ssl_context with None => %s | Some ssl_context => %s end)" % (a[f], b[f])
+                a_ = run(s.body, fields, narrowed)
+                b_ = run(s.orelse, fields, narrowed or kind == "ctx_none")
+                for f in list(dict.fromkeys(list(a_) + list(b_))):
+                    if a_.get(f) == b_.get(f): fields[f] = a_[f]; continue
+                    if f not in a_ or f not in b_: bad(s, "__init__: attribute %s is not set on every path" % f)
+                    fields[f] = ("(if %s then %s else %s)" % (c, a_[f][0], b_[f][0]) if kind == "bool" else
+                                 "(match ssl_context with None => %s | Some ssl_context => %s end)" % (a_[f][0], b_[f][0]), INIT_FIELDS[f])
                 continue
             bad(s, "__init__: statement")
         return fields
     fields = run(fn.body, {}, False)
     for f in INIT_FIELDS:
-        if not isinstance(fields.get(f), str): bad(fn, "__init__: attribute %s" % f)
-    return ("Definition gen_init (trust_on_first_use verify_ssl : bool) (ssl_context : option N) (decode_bodies : bool) : %sclient_cfg :=\n  %sBuild_client_cfg %s.\n"
-            % (R, R, " ".join(fields[f] for f in INIT_FIELDS)))
+        if f not in fields: bad(fn, "__init__: attribute %s is never set" % f)
+    order = [p_ for p_ in params if p_ in INIT_PARAMS]
+    coq = {"bool": "bool", "nat": "nat", "Q": "QArith_base.Q", "option N": "option N"}
+    out = "".join("Definition %s : nat := %d%%nat.\n" % cv for cv in consts.values()) + "\n"
+    # the defaults of the constructor (what a caller that omits the argument gets)
+    defaults = dict(zip(reversed([x.arg for x in a.args]), reversed(a.defaults)))
+    for p_ in order:
+        d = defaults.get(p_)
+        if d is None: continue
+        ty = INIT_PARAMS[p_]
+        if ty == "Q" and isinstance(d, ast.Constant) and isinstance(d.value, (int, float)) and not isinstance(d.value, bool): term = q_literal(d.value)
+        elif ty == "option N" and isinstance(d, ast.Constant) and d.value is None: term = "None"
+        else:
+            term, t2 = value(d, {}, False)
+            if t2 != ty or (isinstance(d, ast.Name) and d.id in INIT_PARAMS): bad(d, "__init__: default of %s" % p_)
+        out += "Definition gen_init_default_%s : %s := %s.\n" % (p_, coq[ty], term)
+    out += ("\nDefinition gen_init %s : %sclient_cfg :=\n  %sBuild_client_cfg %s.\n"
+            % (" ".join("(%s : %s)" % (p_, coq[INIT_PARAMS[p_]]) for p_ in order), R, R, " ".join(fields[f][0] for f in INIT_FIELDS)))
+    return out
+
+# ------------------------------------------------------------------ GeminiClient.get
+def translate_get(tree, consts):
+    """validate_url(...) statements (exceptions are res values: the first failure is the result), then the dispatch on follow_redirects;
+    the two coroutine methods are callees returning res"""
+    fn = find_function(tree, "GeminiClient", "get")
+    a = fn.args
+    if not isinstance(fn, ast.AsyncFunctionDef) or [x.arg for x in a.args] != ["self", "url", "follow_redirects"] or a.vararg or a.kwarg or a.kwonlyargs or a.posonlyargs:
+        bad(fn, "get: signature")
+    gwr = find_function(tree, "GeminiClient", "_get_with_redirects")
+    gs = find_function(tree, "GeminiClient", "_get_single")
+    ga = gwr.args
+    if [x.arg for x in ga.args] != ["self", "url", "max_redirects", "redirect_chain"] or ga.vararg or ga.kwarg or ga.kwonlyargs or ga.posonlyargs \
+       or [ast.unparse(d) for d in ga.defaults] != ["None"] or not isinstance(gwr, ast.AsyncFunctionDef): bad(gwr, "_get_with_redirects: signature")
+    if [x.arg for x in gs.args.args] != ["self", "url"] or not isinstance(gs, ast.AsyncFunctionDef): bad(gs, "_get_single: signature")
+    FAIL = "| Err k__ m__ => Err k__ m__ | OutOfModel => OutOfModel end"
+    tmp = [0]
+    def rexpr(e, want, k):
+        """an expression that may raise, in continuation style: k(term)"""
+        if isinstance(e, ast.Name) and e.id == "url" and want == "str": return k("url")
+        if isinstance(e, ast.Name) and e.id == "follow_redirects" and want == "bool": return k("follow_redirects")
+        if isinstance(e, ast.Name) and e.id in consts and want == "nat": return k(consts[e.id][0])
+        if isinstance(e, ast.Constant) and isinstance(e.value, int) and not isinstance(e.value, bool) and e.value >= 0 and want == "nat": return k("%d%%nat" % e.value)
+        if isinstance(e, ast.Constant) and e.value is None and want == "chain": return k("None")
+        if isinstance(e, ast.Attribute) and ast.unparse(e) == "self.max_redirects" and want == "nat": return k("(%scfg_max_redirects self__)" % R)
+        if isinstance(e, ast.Attribute) and e.attr == "normalized" and want == "str" and isinstance(e.value, ast.Call) and ast.unparse(e.value.func) == "parse_url" \
+           and len(e.value.args) == 1 and not e.value.keywords:
+            tmp[0] += 1
+            v = "p__%d" % tmp[0]
+            return rexpr(e.value.args[0], "str", lambda x: "(match parse_url %s with Ok %s => %s %s)" % (x, v, k("(Url.p_norm %s)" % v), FAIL))
+        bad(e, "get: expression (%s expected)" % want)
+    def call_args(call, names, kinds, defaults):
+        if len(call.args) > len(names): bad(call, "too many arguments")
+        given = dict(zip(names, call.args))
+        for kw in call.keywords:
+            if kw.arg is None or kw.arg in given or kw.arg not in names: bad(call, "keyword argument")
+            given[kw.arg] = kw.value
+        for n, d in defaults.items(): given.setdefault(n, d)
+        if set(given) != set(names): bad(call, "missing argument")
+        return [(given[n], kinds[n]) for n in names]
+    def many(pairs, k, acc=()):
+        if not pairs: return k(list(acc))
+        (e, want), rest = pairs[0], pairs[1:]
+        return rexpr(e, want, lambda x: many(rest, k, acc + (x,)))
+    def block(stmts):
+        if not stmts: bad(fn, "get: control can fall off the end")
+        s, rest = stmts[0], stmts[1:]
+        if isinstance(s, ast.Expr) and isinstance(s.value, ast.Constant) and isinstance(s.value.value, str): return block(rest)
+        if isinstance(s, ast.Expr) and isinstance(s.value, ast.Call) and ast.unparse(s.value.func) == "validate_url" and len(s.value.args) == 1 and not s.value.keywords:
+            return rexpr(s.value.args[0], "str", lambda x: "(match validate_url %s with Ok _ => %s %s)" % (x, block(rest), FAIL))
+        if isinstance(s, ast.If):
+            if not (isinstance(s.test, ast.Name) and s.test.id == "follow_redirects" or isinstance(s.test, ast.UnaryOp) and isinstance(s.test.op, ast.Not)
+                    and isinstance(s.test.operand, ast.Name) and s.test.operand.id == "follow_redirects"): bad(s, "get: test")
+            c = "follow_redirects" if isinstance(s.test, ast.Name) else "(negb follow_redirects)"
+            return "(if %s then %s else %s)" % (c, block(s.body + rest), block(s.orelse + rest))
+        if isinstance(s, ast.Return):
+            v = s.value
+            if not (isinstance(v, ast.Await) and isinstance(v.value, ast.Call)): bad(s, "get: `return await self.<method>(...)`")
+            f = ast.unparse(v.value.func)
+            if f == "self._get_with_redirects":
+                pairs = call_args(v.value, ["url", "max_redirects", "redirect_chain"], {"url": "str", "max_redirects": "nat", "redirect_chain": "chain"},
+                                  {"redirect_chain": ga.defaults[0]})
+                return many(pairs, lambda xs: "(get_with_redirects %s)" % " ".join(xs))
+            if f == "self._get_single":
+                pairs = call_args(v.value, ["url"], {"url": "str"}, {})
+                return many(pairs, lambda xs: "(get_single %s)" % " ".join(xs))
+            bad(s, "get: callee")
+        bad(s, "get: statement")
+    return ("Definition gen_get {A : Type} (validate_url : str -> res unit) (parse_url : str -> res Url.parsed)\n"
+            "  (get_with_redirects : str -> nat -> option (list str) -> res A) (get_single : str -> res A)\n"
+            "  (self__ : %sclient_cfg) (url : str) (follow_redirects : bool) : res A :=\n  %s.\n" % (R, block(fn.body)))
 
 # ------------------------------------------------------------------ which functions
 CALL = "%s -> %s * list caction"
@@ -575,6 +710,7 @@ SPECS = [
 
 HEADER = """(* GENERATED by /verif/translate/py2coq_session.py from /repo/src/nauyaca/client/session.py (with client/protocol.py and security/tofu.py) - do not edit *)
 From Coq Require Import List NArith ZArith Bool.
+From Coq Require QArith.
 From NV Require Import Prelude.Str Prelude.Res Prelude.Utf8 Model.Tofu Model.ClientProto Equiv.TofuGlue Equiv.SessionGlue.
 From NV Require Model.Url.
 Import ListNotations.
@@ -590,8 +726,11 @@ def main(out_path):
     protos = proto_signatures(proto)
     chunks = [HEADER]
     chunks.append("Definition gen_exc_bases : list (str * list str) :=\n  [%s].\n\n" % "; ".join("(%s, [%s])" % (coq_str(c), "; ".join(coq_str(b) for b in bs)) for c, bs in table))
-    try: chunks.append(translate_init(session) + "\n")
+    consts = module_constants(session, parse("protocol/constants.py"))
+    try: chunks.append(translate_init(session, consts) + "\n")
     except Untranslatable as e: raise Untranslatable("client/session.py:GeminiClient.__init__: %s" % e)
+    try: chunks.append(translate_get(session, consts) + "\n")
+    except Untranslatable as e: raise Untranslatable("client/session.py:GeminiClient.get: %s" % e)
     for spec in SPECS:
         spec = dict(spec, protos=protos, exc_names=[c for c, _ in table])
         try:
@@ -600,7 +739,7 @@ def main(out_path):
         except Untranslatable as e:
             raise Untranslatable("%s:%s.%s: %s" % (spec["file"], spec["cls"], spec["func"], e))
     open(out_path, "w").write("".join(chunks))
-    print("py2coq_session: %d functions translated" % (len(SPECS) + 1))
+    print("py2coq_session: %d functions translated" % (len(SPECS) + 2))
 
 if __name__ == "__main__":
     try:
